@@ -44,7 +44,7 @@ def case_saturation(ctx, nc, ns, win, per_channel, sym_fs):
     data = arrays.mk([e for r in d for e in r], shape=(nc, ns), tag=np.dtype(np.float32))
     if per_channel:
         V = [ctx.real(f"V{c}", Fraction(1, 100), 10) for c in range(nc)]
-        maxv = arrays.mk(V, tag=np.dtype(np.float32))
+        maxv = arrays.mk(list(V), tag=np.dtype(np.float64))        # e.g. the reader's range_volts, hoisted out of a batch loop by the caller
     else:
         V0 = ctx.real("V", Fraction(1, 100), 10)
         V = [V0] * nc
@@ -55,6 +55,11 @@ def case_saturation(ctx, nc, ns, win, per_channel, sym_fs):
     ctx.assume(s > 0)
     fs = ctx.real("fs", 1, 10 ** 6) if sym_fs else 30000
     flags, mute = v.saturation(data, maxv, v_per_sec=s, fs=fs, proportion=p, mute_window_samples=win)
+    if per_channel:
+        now = np.asarray(arrays._plain(maxv), dtype=object).ravel().tolist()
+        ctx.oblige("callers_range_array_left_untouched", all_([core.eq(now[c], V[c]) for c in range(nc)]), detail={"now": now})
+        again, _ = v.saturation(data, maxv, v_per_sec=s, fs=fs, proportion=p, mute_window_samples=win)
+        ctx.oblige("second_identical_call_gives_the_same_flags", tuple(again.shape) == tuple(flags.shape) and all_([core.eq(again[t], flags[t]) for t in range(ns)]) if tuple(again.shape) == tuple(flags.shape) else False)
     ctx.oblige("flag_length", flags.shape == (ns,))
     ctx.oblige("mute_length", mute.shape == (ns,))
     k98 = 0.98  # same double constant as the statement's 98 %
@@ -135,8 +140,12 @@ F = lambda s: float(Fraction(s))
 d = np.array([[F(x) for x in r] for r in {d}])
 V = {('np.array([F(x) for x in %r])' % V) if params['per_channel'] else 'F(%r)' % V}
 p, s, fs, win = F({str(m['proportion'])!r}), F({str(m['v_per_sec'])!r}), F({fs!r}), {win}
+V0 = np.copy(V)
 flags, mute = v.saturation(d.copy(), V, v_per_sec=s, fs=fs, proportion=p, mute_window_samples=win)
 nc, ns = d.shape
+if not np.array_equal(np.asarray(V), V0): reproduced(f"the caller's range array was changed from {{V0}} to {{V}}")
+again, _ = v.saturation(d.copy(), V, v_per_sec=s, fs=fs, proportion=p, mute_window_samples=win)
+if not np.array_equal(again, flags): reproduced(f'a second identical call returns other flags: {{flags}} then {{again}}')
 Vc = np.broadcast_to(np.atleast_1d(V), (nc,))
 over = (np.abs(d) > (Vc * 0.98)[:, None]).sum(0)
 dd = np.abs(np.diff(d, axis=1))
@@ -146,6 +155,7 @@ w = scipy.signal.windows.cosine(win); h = win // 2
 exp = np.array([max(0.0, 1 - sum(float(flags[j]) * w[t - j + h] for j in range(ns) if 0 <= t - j + h < win)) for t in range(ns)])
 print('flags', flags, 'upper', upper, 'lower', lower, 'mute', mute, 'exp', exp)
 bad = []
+if np.shape(flags) != (ns,) or np.shape(mute) != (ns,): reproduced(f'flags {{np.shape(flags)}} / mute {{np.shape(mute)}} do not have one entry per sample ({{ns}})')
 if np.any(flags & ~upper) or np.any(lower & ~flags): bad.append('flag rule')
 if np.any(mute < -1e-12) or np.any(mute > 1 + 1e-12): bad.append('mute range')
 if np.any(np.abs(mute[flags]) > 1e-9): bad.append('flag => mute 0')
